@@ -50,10 +50,15 @@ type FSM struct {
 	restoreMu sync.Mutex
 }
 
+// sessionExpiration returns the session expiration of the configuration which
+// is currently in force. It must not be cached in the FSM: the cached value is
+// lost when the process restarts or the state is restored from a snapshot, and
+// it is overwritten with outdated values when Snapshot() folds old Config
+// messages into a temporary server.
 func (fsm *FSM) sessionExpiration() time.Duration {
-	fsm.sessionExpirationMu.RLock()
-	defer fsm.sessionExpirationMu.RUnlock()
-	return fsm.sessionExpirationDur
+	ircServer.ConfigMu.RLock()
+	defer ircServer.ConfigMu.RUnlock()
+	return time.Duration(ircServer.Config.SessionExpiration)
 }
 
 // sendMessages appends the specified batch of messages to the output,
